@@ -36,7 +36,7 @@ ASSUMPTIONS = ['"for all seeds / hash seeds / process counts" is sampled', 'the 
 FLOORS = {'quick': {'digests_compared': 280, 'trajectories': 24, 'watched_calls': 20000, 'global_reseeds': 5000, 'interleaved_other_models': 500,
                     'fresh_interpreter_digests': 96, 'batch_worker_digests': 72, 'distinct_seed_pairs_differ': 30, 'seed_zero_trajectories': 6,
                     'hash_seeds_used': 4, 'reach:Core.Environment.get_random_agent': 14000, 'reach:Core.Environment.shuffle': 8600},
-          'thorough': {'digests_compared': 10000, 'trajectories': 1000, 'watched_calls': 1000000}}
+          'thorough': {'digests_compared': 6000, 'trajectories': 500, 'watched_calls': 400000}}
 EXHAUSTIVE = {}
 
 
